@@ -380,3 +380,67 @@ Proof.
   - now apply lamI_d2.
   - now apply lamI_cp.
 Qed.
+
+(** * the local ideal-gas Helmholtz energy density of a DFT profile
+    (feos-dft/src/profile/properties.rs, [ideal_gas_contribution_dual]): at a grid point with partial densities rho_i > 0
+    the code adds  T * sum_i rho_i (ln Lambda_i^3 + ln rho_i - 1)  — per component, no guard. *)
+Definition dft_ideal_density (T : R) (cs : list icomp) : R :=
+  sumf (fun c => (ic_lam c T + ln (ic_n c) - 1) * ic_n c) cs * T.
+Definition positive (cs : list icomp) : Prop := forall c, In c cs -> 0 < ic_n c.
+
+Lemma positive_nonneg cs : positive cs -> nonneg cs.
+Proof. intros H. unfold nonneg. apply List.Forall_forall. intros c Hc. apply Rlt_le. now apply H. Qed.
+
+(** it is the bulk ideal-gas Helmholtz energy of the particle numbers rho_i in the unit volume *)
+Theorem dft_ideal_is_bulk T cs : positive cs -> dft_ideal_density T cs = A_ig T 1 cs.
+Proof.
+  intros Hp. unfold dft_ideal_density, A_ig, beta_A. f_equal. apply sumf_ext. intros c Hc.
+  rewrite comp_term_guard; [ | lra | apply Rlt_le; now apply Hp ].
+  replace (ic_n c / 1) with (ic_n c) by field. reflexivity.
+Qed.
+
+(** hence the ideal-gas entropy density that entropy_density(Total) adds to the residual one is -dA_dT(T, 1, rho) *)
+Theorem dft_ideal_entropy_density T cs : 0 < T -> all_ok cs -> positive cs ->
+  is_derive (fun t => dft_ideal_density t cs) T (dA_dT T 1 cs).
+Proof.
+  intros HT Hok Hp.
+  apply is_derive_ext with (fun t => A_ig t 1 cs).
+  - intros t. symmetry. now apply dft_ideal_is_bulk.
+  - now apply ideal_dA_dT.
+Qed.
+
+(** extensivity of the bulk model: scaling V and all N_i by k > 0 scales A_ig by k, so a density (A/V) depends on
+    the partial densities only — the bulk State of the same T and rho_i is the right reference for a profile *)
+Definition scale_n (k : R) (c : icomp) : icomp := with_n c (k * ic_n c).
+
+Theorem A_ig_extensive T V k cs : 0 < V -> 0 < k -> nonneg cs ->
+  A_ig T (k * V) (map (scale_n k) cs) = k * A_ig T V cs.
+Proof.
+  intros HV Hk Hn. unfold A_ig, beta_A.
+  replace (k * (sumf (fun c => comp_term (ic_lam c T) (ic_n c / V) (ic_n c)) cs * T))
+    with (sumf (fun c => k * comp_term (ic_lam c T) (ic_n c / V) (ic_n c)) cs * T) by (rewrite sumf_scal; ring).
+  f_equal. rewrite sumf_map. unfold sumf. apply fold_right_ext_in. intros c Hc.
+  unfold nonneg in Hn. rewrite List.Forall_forall in Hn. specialize (Hn c Hc).
+  unfold scale_n, with_n; simpl.
+  replace (k * ic_n c / (k * V)) with (ic_n c / V) by (field; lra).
+  unfold comp_term. ring.
+Qed.
+
+(** the ideal entropy of mixing is what a "total density" shortcut would lose: the per-component form minus the form with a
+    single logarithm of the total density is T sum_i rho_i ln x_i *)
+Theorem dft_ideal_mixing_term T cs : positive cs -> 0 < Ntot cs ->
+  dft_ideal_density T cs
+  - (sumf (fun c => ic_lam c T * ic_n c) cs + Ntot cs * (ln (Ntot cs) - 1)) * T
+  = T * sumf (fun c => ic_n c * ln (ic_n c / Ntot cs)) cs.
+Proof.
+  intros Hp HN. unfold dft_ideal_density.
+  assert (E : sumf (fun c => (ic_lam c T + ln (ic_n c) - 1) * ic_n c) cs
+              = sumf (fun c => ic_lam c T * ic_n c) cs + Ntot cs * (ln (Ntot cs) - 1)
+                + sumf (fun c => ic_n c * ln (ic_n c / Ntot cs)) cs).
+  { replace (Ntot cs * (ln (Ntot cs) - 1)) with (sumf (fun c => (ln (Ntot cs) - 1) * ic_n c) cs)
+      by (rewrite sumf_scal; unfold Ntot; ring).
+    rewrite <- !sumf_plus. apply sumf_ext. intros c Hc.
+    unfold Rdiv. rewrite ln_mult; [ | now apply Hp | apply Rinv_0_lt_compat; exact HN ].
+    rewrite ln_Rinv by exact HN. ring. }
+  rewrite E. ring.
+Qed.
